@@ -83,6 +83,39 @@ example : planOk exU [⟨false, 0, none, none⟩] [.add 0, .replace 0 1, .add 3]
 example : planOk exU [⟨false, 0, none, none⟩] [.add 0, .replace 0 1, .add 2] = false := by decide
 example : planOk exU [⟨false, 0, none, none⟩] [.replace 0 1, .add 3, .add 2] = false := by decide
 
+/-! ## the clause reorder strategy cannot change what a clause demands -/
+
+/-- **The reorder strategy only reorders**: what `default_depset_reorder_strategy` hands to the search for a
+clause is a permutation of the clause's alternatives — none dropped, none invented, whatever is already
+provided and whichever alternatives are blockers. -/
+theorem reorder_perm {α : Type} (blocks pref : α → Bool) (cl : List α) :
+    (reorderClause blocks pref cl).Perm cl := by
+  unfold reorderClause
+  split
+  · exact .refl _
+  · simp only
+    split
+    · exact .refl _
+    · exact List.filter_append_perm _ _
+
+/-- hence a clause is satisfied by a package set exactly when the reordered clause is, and a non-empty clause
+never reaches the search empty (an empty clause would be read as "nothing failed") -/
+theorem reorder_keeps_clause (F : List Pkg) (p : Pkg) (blocks pref : Atom → Bool) (cl : List Atom) :
+    clauseOk F p (reorderClause blocks pref cl) = clauseOk F p cl ∧
+    (cl ≠ [] → reorderClause blocks pref cl ≠ []) := by
+  have hp := reorder_perm blocks pref cl
+  refine ⟨?_, ?_⟩
+  · rw [Bool.eq_iff_iff]
+    simp only [clauseOk, List.any_eq_true]
+    exact ⟨fun ⟨a, ha, h⟩ => ⟨a, hp.mem_iff.mp ha, h⟩, fun ⟨a, ha, h⟩ => ⟨a, hp.mem_iff.mpr ha, h⟩⟩
+  · intro hne h
+    rw [h] at hp
+    exact hne hp.symm.eq_nil
+
+/-- three alternatives, the second one already provided, the third a blocker that is "provided" too -/
+example : reorderClause (fun a : Nat => a == 3) (fun a => a != 1) [1, 2, 3] = [2, 1, 3] := by decide
+example : reorderClause (fun _ : Nat => false) (fun _ => false) [1, 2, 3] = [1, 2, 3] := by decide
+
 /-! ## what the planner's state layer guarantees by itself (model of C17) -/
 
 open Pkgcore.C17 in
